@@ -39,7 +39,7 @@ TEXT = {
             "drag detection incl. the Linux path-list parser and the 200 ms hold-back buffer, the uploadDragFiles and handleTrzsz "
             "goroutines): for every interleaving of reads of the two pumps and timer expiries from an idle state, as long as no "
             "detector fires, the terminal receives exactly the output chunks and the server exactly the typed bytes in order, the "
-            "state stays idle; OSC52 never influences forwarding; the Linux drag detector fires only on a chunk that is entirely a "
+            "state stays idle; a drop called off by any key within the 300 ms window leaves no trace and a completed drag upload leaves only the echo suppression (C05_drag_called_off, C05_drag_upload_completes); a redisplayed trigger with a remembered id passes untouched (C05_redisplayed_trigger_inert, composed with the detector model of C06); OSC52 never influences forwarding; the Linux drag detector fires only on a chunk that is entirely a "
             "list of existing paths; along every run the session pointer is set exactly while one handler owns it, so after any "
             "history that has come to rest the wrapper is idle and transparent again. Tied to the code by regenerated constants, a "
             "regenerated control skeleton of wrapOutput/sendInput/handleTrzsz/uploadDragFiles pinned by reflexivity, and by "
